@@ -402,6 +402,53 @@ def fam_nested_subscript(tier, rng):
 FAMILIES.append(fam_nested_subscript)
 
 
+def fam_static_store(tier, rng):
+    """arrays, records and fixed-length strings that a STATIC procedure DIMensions for itself: made once, they hold at every
+    call what the earlier calls stored (element kinds: INTEGER, STRING, STRING * n, record; a fixed-length scalar and a record
+    scalar next to them), whoever calls"""
+    out = []
+    for kind in ("I", "$", "fix", "rec"):
+        for ncalls in (2, 3):
+            for callers in ("main", "proc", "mixed"):
+                b = B()
+                k = var("K", "I")
+                if kind == "rec":
+                    el = lambda i: fld(idx("AR", "U", [i]), "S", "$", 4)
+                    dimst = b.dim("AR", "U", [dimspec(1, 4)], ty="REC")
+                    val = bin_("+", lit("$", "r"), lit("$", "w"))
+                elif kind == "fix":
+                    def el(i):
+                        e = idx("AR", "$", [i]); e["bare"] = True
+                        return e
+                    dimst = b.dim("AR", "$", [dimspec(1, 4)], fix=3)
+                    val = lit("$", "abcdef")
+                elif kind == "$":
+                    el = lambda i: idx("AR", "$", [i])
+                    dimst = b.dim("AR", "$", [dimspec(1, 4)])
+                    val = lit("$", "xy")
+                else:
+                    el = lambda i: idx("AR", "I", [i])
+                    dimst = b.dim("AR", "I", [dimspec(1, 4)])
+                    val = bin_("*", k, lit("I", 11))
+                fs = var("FS", "$"); fs["bare"] = True
+                body = [dimst, b.dim("FS", "$", fix=2), b.dim("RS", "U", ty="REC"),
+                        b.let(k, bin_("+", k, lit("I", 1))), b.let(el(k), val),
+                        b.if_([(bin_("=", k, lit("I", 1)), [b.let(fs, lit("$", "first")), b.let(fld(var("RS", "U"), "A", "I"), lit("I", 42))])]),
+                        b.print(lit("$", "k"), k, lit("$", "["), el(lit("I", 1)), lit("$", "]["), el(lit("I", 2)), lit("$", "]["), el(lit("I", 3)), lit("$", "]"),
+                                fs, fld(var("RS", "U"), "A", "I"))]
+                subs = [sub("ST", [], body, static=True), sub("VIA", [], [b.dim("AR", "I", [dimspec(1, 2)]), b.call("ST", []), b.print(lit("$", "via"), idx("AR", "I", [lit("I", 1)]))])]
+                main = []
+                for i in range(ncalls):
+                    frm = "main" if callers == "main" else "proc" if callers == "proc" else ("main" if i % 2 == 0 else "proc")
+                    main.append(b.call("ST", []) if frm == "main" else b.call("VIA", []))
+                main.append(b.print(lit("$", "end")))
+                out.append({"fam": "static-store:%s/%d/%s" % (kind, ncalls, callers), "prog": prog(main, subs, types=TYPES)})
+    return out
+
+
+FAMILIES.append(fam_static_store)
+
+
 def cases(tier, seed):
     rng = random.Random(seed)
     out = []
